@@ -752,6 +752,11 @@ func rulesC12(w *World, o *Out) {
 			}
 		}
 		o.Check("C12.R4", "valset.EndBlock|liveness sweep at least every 10 blocks", okS, w.Pos(eb.Pos()), "JailInactiveValidators must run under height % n == 0 with n <= 10")
+		// the sweep reads the grace periods: those of this block must have been recorded before it runs
+		ugs := FindCalls(eb, false, isCallee(vsk, "Keeper", "UpdateGracePeriod"))
+		for _, s := range sw {
+			o.Check("C12.R4", "valset.EndBlock|grace periods are updated before the liveness sweep", len(ugs) > 0 && PrecededBy(eb, s.Instr, siteSet(ugs)), w.Pos(s.Instr.Pos()), "a validator first seen unjailed in a sweep block has no grace entry yet if the sweep runs first, and is jailed again in the very block it was released")
+		}
 	}
 	// sentence table strictly increasing
 	if p := w.ByPath[modPath+"/"+vsk]; p != nil {
@@ -1047,6 +1052,42 @@ func rulesC13(w *World, o *Out) {
 		}
 	}
 	o.Count("C13.R1 batch write sites outside genesis", n, 2)
+	// ... and nothing else issues a checkpoint: a function of the bridge keeper that puts a (re)computed checkpoint
+	// into a batch's BytesToSign -- what validators are served for signing -- archives it
+	nBts := 0
+	for _, f := range w.ProdFuncs {
+		if f.Parent() != nil || !strings.HasSuffix(funcPkgPath(f), "/"+skw) {
+			continue
+		}
+		for _, g := range unitFuncs(f) {
+			for _, b := range g.Blocks {
+				for _, in := range b.Instrs {
+					st, isSt := in.(*ssa.Store)
+					if !isSt {
+						continue
+					}
+					fa, isFA := st.Addr.(*ssa.FieldAddr)
+					if !isFA || fieldName(fa.X.Type(), fa.Field) != "BytesToSign" {
+						continue
+					}
+					if fl.DependsOnCall(st.Val, isCallee("", "", "GetCheckpoint")) == nil {
+						continue
+					}
+					nBts++
+					arch := FindCalls(f, true, isCallee(skw, "Keeper", "SetPastEthSignatureCheckpoint"))
+					o.Check("C13.R1", w.FuncKey(f)+"|a checkpoint put into BytesToSign is archived", len(arch) > 0, w.Pos(st.Pos()), "the bytes a validator is given to sign must be in the archive of legitimate checkpoints, otherwise its confirmation can be replayed as bad-signature evidence")
+				}
+			}
+		}
+	}
+	o.Count("C13.R1 BytesToSign assignments in the bridge keeper", nBts, 1)
+	// evidence that was acknowledged is evidence that is stored: prune-time jailing looks at the stored entries
+	if ae := w.MustFunc(o, "x/consensus/keeper", "msgServer", "AddEvidence"); ae != nil {
+		o.Analysed(w.FuncKey(ae))
+		sites := FindCalls(ae, false, isCallee("x/consensus/keeper", "Keeper", "AddMessageEvidence"))
+		bad := ReachAvoiding(ae, nil, SuccessReturns(ae), siteSet(sites))
+		o.Check("C13.R3", "AddEvidence|a successful MsgAddEvidence stored the evidence", len(sites) > 0 && bad == nil, w.Pos(ae.Pos()), "a success return that does not pass AddMessageEvidence tells the validator its evidence was taken while nothing was stored; at prune time it is jailed for not having supplied any")
+	}
 	for _, m := range muts {
 		if m.Has("call:x/skyway/types.GetPastEthSignatureCheckpointKey") || m.Has("global:PastEthSignatureCheckpointKey") {
 			if m.Op == "Delete" {
